@@ -684,6 +684,27 @@ class DialectKWArgs:
 
         return util.PopulateDict(self._kw_reg_for_dialect_cls)
 
+    def _copy_dialect_options(self) -> None:
+        """give a generative copy its own ``dialect_options`` collection.
+
+        ``_generate()`` copies ``__dict__`` shallowly, so a memoized
+        ``dialect_options`` would otherwise be shared with, and modified on
+        behalf of, the statement the copy was made from.
+
+        """
+        existing = self.__dict__.get("dialect_options")
+        if existing is None:
+            return
+        copied: util.PopulateDict[str, _DialectArgDict] = util.PopulateDict(
+            self._kw_reg_for_dialect_cls
+        )
+        for dialect_name, arg_dict in existing.items():
+            new_arg_dict = _DialectArgDict()
+            new_arg_dict._defaults.update(arg_dict._defaults)
+            new_arg_dict._non_defaults.update(arg_dict._non_defaults)
+            copied[dialect_name] = new_arg_dict
+        self.__dict__["dialect_options"] = copied
+
     def _validate_dialect_kwargs(self, kwargs: Dict[str, Any]) -> None:
         # validate remaining kwargs that they all specify DB prefixes
 
